@@ -12,7 +12,8 @@ EXPLANATION = ("Static rules over events/event_queue.py and events/event.py (plu
                "get_current_events pops while `non-empty and head <= t` (inclusive) exactly once per iteration into the "
                "returned list, len/empty/get_last_timestamp are functions of the heap array only (maximum of component 0), "
                "and _to_dict/_from_dict keep the array order. Together with heapq's documented contract these give the stated "
-               "order for every interleaving.")
+               "order for every interleaving."
+               ' Added in round 3: every event handed to the queue is pushed (constructor passes a given list on, add_events pushes each element once, get_event returns the event component of heappop).')
 NOT_DECIDED = "heapq's own correctness (trusted); behaviour of user-defined Event subclasses"
 
 
